@@ -45,59 +45,61 @@ def cases(tier, seed):
     stores3 = {m: list(gen.all_stores(3, m, (1, 2) if m == "symm" else (1,))) for m in ("symm", "square")}
     nm = 330 if tier == "quick" else 5000
     for h in range(nm):
-        if h % 3 == 0:
-            tname = "one_fixed" if h % 2 else "onebin_chroms"
-            mode = "symm" if h % 4 else "square"
-            k = 1 + h % 3
+        F_h = gen.feat(101, h)          # independent feature choices per case (gen.feat)
+        if F_h("m3@47", 3) == 0:
+            tname = "one_fixed" if F_h("m2@48", 2) else "onebin_chroms"
+            mode = "symm" if F_h("m4@49", 4) else "square"
+            k = 1 + F_h("m3@50", 3)
             ins = [rng.choice(stores3[mode]) for _ in range(k)]
-            if h % 9 == 0:
+            if F_h("m9@52", 9) == 0:
                 ins[-1] = []
-            if h % 15 == 0:
+            if F_h("m15@54", 15) == 0:
                 ins = [ins[0]] * k                 # identical supports
         else:
-            tname = names[h % len(names)]
-            mode = "symm" if h % 5 else "square"
+            tname = names[F_h("len_names@57", len(names))]
+            mode = "symm" if F_h("m5@58", 5) else "square"
             k = rng.randint(1, 4)
             ins = [gen.random_store(rng, len(T[tname]), mode, maxval=9) for _ in range(k)]
         table = T[tname]
-        ncols = [1, 1, 2, 3][h % 4]
+        ncols = [1, 1, 2, 3][F_h("m4@62", 4)]
         cols = ["count", "x", "y"][:ncols]
         aggs = ["sum"] + [rng.choice(["sum", "max", "min", "count"]) for _ in range(ncols - 1)]
-        if h % 13 == 5:
+        if F_h("m13@65", 13) == 5:
             aggs[0] = "count"           # an aggregate that is not the identity on a single value
         ins = [addcols(px, ncols, rng, 9) for px in ins]
         order = list(range(k))
         rng.shuffle(order)
         case = {"table": table, "mode": mode, "inputs": ins, "cols": cols, "aggs": aggs, "bits": 32, "unsigned": False,
                 "buf": rng.choice([1, 2, 3, 5, 10 ** 6]), "order": order}
-        if h % 6 == 2 and k >= 2:
+        if F_h("m6@72", 6) == 2 and k >= 2:
             # inputs of different integer widths, the narrower first: the output type must accommodate all of them
             case["bits_in"] = [16] + [32] * (k - 1)
             case["order"] = list(range(k))
             case["inputs"] = [case["inputs"][0]] + [[[p[0], p[1]] + [v + 40000 for v in p[2:]] for p in px] for px in case["inputs"][1:]]
-        if k >= 2 and h % 4 == 1:
+        if k >= 2 and F_h("m4@77", 4) == 1:
             # nesting is only meaningful for associative aggregates ("count" of counts is not the count)
             case["aggs"] = [a if a != "count" else "sum" for a in case["aggs"]]
-            case.update({"nested": rng.randint(1, k - 1) if k > 2 else 1, "buf2": rng.choice([1, 4, 10 ** 6]), "left": h % 8 == 1})
-        elif h % 7 in (3, 5):
+            case.update({"nested": rng.randint(1, k - 1) if k > 2 else 1, "buf2": rng.choice([1, 4, 10 ** 6]), "left": F_h("m8@80", 8) == 1})
+        elif F_h("m7@81", 7) in (3, 5):
             case["via"] = "cli"
-            case["barefields"] = h % 2 == 0
-        if h % 6 == 5:
+            case["barefields"] = F_h("m2@83", 2) == 0
+        if F_h("m6@84", 6) == 5:
             case["shared_file"] = True
-        if h % 5 == 2 and "bits_in" not in case:
+        if F_h("m5@86", 5) == 2 and "bits_in" not in case:
             # float64 columns holding quarters (not for the 'count' aggregate, whose result is a number of records)
             case["scale"] = 4
             case["aggs"] = [a if a != "count" else "sum" for a in case["aggs"]]
-        if h % 4 == 2 and ncols >= 2 and "via" not in case:
+        if F_h("m4@90", 4) == 2 and ncols >= 2 and "via" not in case:
             case["partial_dtypes"] = True
-        if h % 8 == 6 and "via" not in case and "nested" not in case:
+        if F_h("m8@92", 8) == 6 and "via" not in case and "nested" not in case:
             case["reuse_dtypes"] = True
             case["inputs"] = [[[p[0], p[1]] + [v + 200 for v in p[2:]] for p in px] for px in case["inputs"]]   # beyond int8
         yield "mg.merge", case
     # (3) values near the limits of the value dtype: the exact aggregate or an error, never something else
     for h in range(60 if tier == "quick" else 600):
-        bits = [8, 16][h % 2]
-        unsigned = h % 3 == 2
+        F_h = gen.feat(102, h)          # independent feature choices per case (gen.feat)
+        bits = [8, 16][F_h("m2@98", 2)]
+        unsigned = F_h("m3@99", 3) == 2
         hi = (2 ** bits - 1) if unsigned else (2 ** (bits - 1) - 1)
         k = rng.randint(2, 3)
         table = T["one_fixed"]
